@@ -736,6 +736,14 @@ class Blockwise(ArrayExpr):
         out_ind = self.out_ind
         out_chunks = self.chunks
 
+        if self.align_arrays:
+            # The block ranges below are ranges of the *unified* layout, but
+            # each operand is cut at its own block boundaries: only right when
+            # the operands are on the unified layout already.
+            _, _, changed = unify_chunks_expr(*self.args)
+            if changed:
+                return None
+
         # For each output axis, compute block range and output adjustment
         block_ranges = []  # (first_block, last_block) for each axis
         output_adjustments = []  # Adjusted slices to apply to output
